@@ -19,13 +19,19 @@ import Mathlib.Tactic.NormNum
   of closure-weight 1 that `traverse` found, in the order of the draws; `invol`, `comm`, `move` from C09
   (`modelFlip_clusterMove`: a cluster of weight 1 is a component — or everything — without an operator of flip
   weight 0, so its flip is a `ClusterMove`).  No completeness of the traversal is needed for this.
-* `TravOK sk` — **the named hypothesis on the traversal** (decidable per skeleton): `traverse sk` does not
-  end `bad` and its representatives have pairwise different component labels.
+* `TravOK sk` — what the law theorem needs of the traversal (decidable per skeleton): `traverse sk` does not
+  end `bad` and its representatives have pairwise different component labels.  It is a hypothesis *of the
+  theorems of this file*; it is **proved for every well-formed skeleton** in `QmcProofs/LawTravOK.lean`
+  (`Qmc.Law.travOK`, `cfgSpace_travOK`: on `cfgSpace H N L` for `VarsOK H N` and `VarsPos H`), so the
+  hypothesis-free forms are `Qmc.LawThm.clusterUpdate_law_eq_kernel`, `step_law_eq_kernels`, `isingStep_law_invariant`.
 * `law_clusterKT` — **law = kernel**: on a canonical-tag configuration of `cfgSpace H N L` whose skeleton
   is `TravOK`, `law (clusterKT ½ fz c) = clusterK (ClusterFamily.ofModel …) c`.
 * `flipsK_perm`, `clusterK_ofModel_eq_ofComponents` — if the flips the update offers are, up to order, the
   component flips (`componentFlips` of `KernelInvarianceComponents.lean`), its kernel is
-  `clusterK (ClusterFamily.ofComponents …)`, the kernel of `Kernel.ising_timestep_invariant`.
+  `clusterK (ClusterFamily.ofComponents …)`, the kernel of `Kernel.ising_timestep_invariant`.  The permutation
+  hypothesis is **proved** in `QmcProofs/LawTravPerm.lean` (`modelFlips_perm_componentFlips`, `cfgSpace_hperm`: the
+  traversal is complete and sound; needs `EdgeNotFrozen H fr`, true of `IsingSampler.frozenBond` and of
+  `fun _ => false`).
 -/
 
 open Finset
@@ -498,8 +504,10 @@ noncomputable def ClusterFamily.ofModel (fr : SkOp → Bool) (H : Ham) (N L : Na
 /-! ### law of the cluster update = the cluster kernel of its own family -/
 
 /-- **what is assumed of the traversal `traverse`** (`QmcModel/ClusterExact.lean`, the transliteration of
-the stack traversal of `flip_each_cluster_rng`) on one skeleton — decidable, checked case by case by C09's
-correspondence, not proved in general: it terminates without reaching an `unreachable!()`, and the
+the stack traversal of `flip_each_cluster_rng`) on one skeleton — decidable; proved for every string whose
+operators act on distinct variables and have at least one variable in `QmcProofs/LawTravOK.lean` (`Qmc.Law.travOK`,
+`cfgSpace_travOK`), kept here as a hypothesis so that this file does not depend on that proof: it terminates
+without reaching an `unreachable!()`, and the
 representatives it returns lie in pairwise different components -/
 structure TravOK (sk : Skel) : Prop where
   notBad : (traverse sk).bad = false
